@@ -188,9 +188,9 @@ func (ss *serverStream) SendMsg(m interface{}) error {
 		},
 	}
 
-	if !ss.protected.headersSent {
+	withHeaders := !ss.protected.headersSent
+	if withHeaders {
 		rpc.Header.Headers = internal.ToKeyValue(ss.protected.headers...)
-		ss.protected.headersSent = true
 
 		for _, sh := range ss.statsHandlers {
 			sh.HandleRPC(ss.ctx, &stats.OutHeader{
@@ -212,6 +212,12 @@ func (ss *serverStream) SendMsg(m interface{}) error {
 	if err != nil {
 		log.Error().Err(err).Msg("ServerStream SendMsg: conn.Write")
 		return err
+	}
+
+	if withHeaders {
+		// Only now: had the write failed, the headers would still be owed to
+		// whatever goes out next, at the latest the final status.
+		ss.protected.headersSent = true
 	}
 
 	return nil
